@@ -523,6 +523,40 @@ def h_deep_recursion():
     assert out.shape == (3,)
 
 
+def h_recursion_error_through_contexts():
+    """A runaway recursion through `with jaxtyped("context")` blocks (checking before or after recursing) ends in RecursionError, caught
+    here; wherever in jaxtyping's enter / exit code the interpreter's limit happened to be reached -- 14 alignments are tried by putting
+    0..13 plain frames underneath -- every context that was entered is closed again (the probes that follow look at the leftovers)."""
+    def rec_post(x):
+        with jaxtyped("context"):
+            rec_post(np.zeros((x.shape[0] + 1,), dtype="float32"))
+            assert isinstance(x, Float[np.ndarray, "vf12rec"])
+        return x
+
+    def rec_pre(x):
+        with jaxtyped("context"):
+            assert isinstance(x, Float[np.ndarray, "vf12rec"])
+            rec_pre(np.zeros((x.shape[0] + 1,), dtype="float32"))
+        return x
+
+    def pad(k, f, x):
+        return f(x) if k == 0 else pad(k - 1, f, x)
+
+    old = sys.getrecursionlimit()
+    import inspect
+
+    depth = len(inspect.stack(0))
+    for f in (rec_post, rec_pre):
+        for k in range(14):
+            sys.setrecursionlimit(depth + 160)
+            try:
+                pad(k, f, np.zeros((1,), dtype="float32"))
+            except RecursionError:
+                pass
+            finally:
+                sys.setrecursionlimit(old)
+
+
 def h_generator_old_private_pytree_twin():
     """A private annotation object L is the leaf type of a PyTree annotation and then the annotation of an old-style generator (whatever
     jaxtyping does to L concerns L alone); a PyTree annotation over a freshly written, identically spelled leaf type is unaffected."""
@@ -775,14 +809,14 @@ HISTORY_OPS = {
     "check-pass": h_check_pass, "check-fail": h_check_fail, "check-raise": h_check_raise, "toplevel-check": h_toplevel_check,
     "pytree-pass": h_pytree_pass, "pytree-fail": h_pytree_fail, "pytree-q-misuse": h_pytree_q_misuse, "pytree-unbound-composite": h_pytree_unbound_composite,
     "decorate-shared-typeguard": h_decorate_shared_tg, "decorate-shared-beartype": h_decorate_shared_bt, "decorate-shared-old": h_decorate_shared_old,
-    "deep-recursion": h_deep_recursion, "generator-old-unpickled": h_generator_old_unpickled, "generator-old-private-pytree-twin": h_generator_old_private_pytree_twin, "generator-old-inner-outer": h_generator_old_inner_outer, "generator-old-pytree": h_generator_old_pytree, "generator-new-shared": h_generator_new_shared, "generator-old-fresh": h_generator_old_fresh, "generator-old-shared": h_generator_old_shared,
+    "deep-recursion": h_deep_recursion, "recursion-error-through-contexts": h_recursion_error_through_contexts, "generator-old-unpickled": h_generator_old_unpickled, "generator-old-private-pytree-twin": h_generator_old_private_pytree_twin, "generator-old-inner-outer": h_generator_old_inner_outer, "generator-old-pytree": h_generator_old_pytree, "generator-new-shared": h_generator_new_shared, "generator-old-fresh": h_generator_old_fresh, "generator-old-shared": h_generator_old_shared,
     "resubscribe": h_resubscribe, "pickle": h_pickle, "hook": h_hook, "hook-exception": h_hook_exception, "config-roundtrip": h_config_roundtrip,
     "pytree-union-inner-structured": h_pytree_union_inner_structured, "protocol-array-pass": h_protocol_array_pass, "address-reuse": h_address_reuse, "generator-none-suspended": h_generator_none_suspended, "forward-reference-early-call": h_forward_reference_early_call,
     "call-ok": h_call_ok, "call-ill": h_call_ill, "call-raises": h_call_raises, "thread-activity": h_thread_activity, "name-format": h_name_format,
 }
 KNOWN_EXCLUDED = {"generator-old-shared"}
 INTERESTING = {"check-fail", "check-raise", "pytree-fail", "pytree-q-misuse", "pytree-unbound-composite", "decorate-shared-typeguard", "decorate-shared-beartype",
-               "decorate-shared-old", "generator-new-shared", "call-ill", "call-raises", "hook-exception", "generator-none-suspended", "forward-reference-early-call", "address-reuse", "pytree-union-inner-structured", "protocol-array-pass", "deep-recursion"}
+               "decorate-shared-old", "generator-new-shared", "call-ill", "call-raises", "hook-exception", "generator-none-suspended", "forward-reference-early-call", "address-reuse", "pytree-union-inner-structured", "protocol-array-pass", "deep-recursion", "recursion-error-through-contexts"}
 
 
 def reset_shared():
